@@ -216,10 +216,15 @@ static bool handle_token(unsigned char uch, long file_pos,
 static int count(unsigned char needle, const char* haystack, size_t len)
 {
   int n = 0;
+  bool in_string = false;
   const unsigned char *p = (const unsigned char*)haystack;
   while (len--)
     {
-      if (*p++ == needle)
+      /* Bytes inside a string are not tokens (see decode_line). */
+      const unsigned char ch = *p++;
+      if (ch == '"')
+	in_string = !in_string;
+      else if (!in_string && ch == needle)
 	++n;
     }
   return n;
